@@ -69,7 +69,7 @@ CHECKS = {
    design="6/C12"),
  "C13": dict(
    technique="property-based testing (proptest) on constructed manager states; oracle = validity predicate (rarest-first among candidates) that any tie-break must satisfy; the wire-driven histories of C12 judged by this property's clauses (proptest + coverage-guided libFuzzer campaign fz_hist in the thorough tier)",
-   text="Generated status vectors (missing count forced to 9/10/11 among others, Reserved mixed in) and 1-6 peers with generated advertised sets; the real choose_piece_index is called 8x per state; the pick must be a candidate of minimal availability, None iff no candidate.",
+   text="Generated status vectors over 1-39 pieces (rarely 1023-4000, or 65537-80000 so that piece indices exceed 16 bits; missing count forced to 9/10/11 among others, Reserved mixed in) and 1-6 peers with generated advertised sets; the real choose_piece_index is called 8x per state; the pick must be a candidate of minimal availability, None iff no candidate.",
    note="States are constructed through set-up hooks; rdest's shuffle is unseeded, hence a validity predicate rather than one expected answer.",
    design="6/C13"),
  "C14": dict(
